@@ -330,6 +330,9 @@ func c05Run(c *core.Case, o *core.Outcome) {
 				markStop()
 				e.cancel()
 			}
+			if !e.stopPoint.Load() {
+				e.evalSum.Add(int64(v))
+			}
 			return v
 		},
 	}
@@ -457,6 +460,13 @@ func c05Run(c *core.Case, o *core.Outcome) {
 		if p.Blocking == "gated" && e.started.Load() > 0 {
 			o.AddObs("stopped_with_inflight", 1)
 		}
+	}
+	if p.Ending == "cancel-eval" && e.started.Load() > e.evalSum.Load() {
+		viol("requested-after-cancel", "the run was cancelled inside rate evaluation %d; the evaluations before it requested %d iterations in total, %d iteration functions were invoked: iterations were requested after the cancellation", p.At, e.evalSum.Load(), e.started.Load())
+		return
+	}
+	if p.Ending == "cancel-eval" {
+		o.AddObs("cancel_eval_sums_checked", 1)
 	}
 	if p.Ending == "limit" && p.Blocking == "none" && uint64(e.started.Load()) != p.Spec.MaxIterations {
 		viol("limit-count", "limit %d but %d iterations started", p.Spec.MaxIterations, e.started.Load())
